@@ -261,7 +261,8 @@ pub fn record(output: &str) {
         };
         let robot = kin.as_ref();
         let want = oracle::chain(&p, &q_chain);
-        let res = guarded(|| (robot.forward(&q), robot.forward_with_joint_poses(&q)));
+        // (one call in four from inside a worker pool of 1 .. 13 threads: the poses do not depend on the caller's pool)
+        let res = guarded(|| in_pool(if k % 4 == 2 { 1 + (k / 4) % 13 } else { 0 }, || (robot.forward(&q), robot.forward_with_joint_poses(&q))));
         match res {
             None => out.put(json!({"ev": "fk", "outcome": "panic", "class": class, "offsets": oc, "signs": (k / 3) % 64, "q": au6(&q)})),
             Some((fwd, poses)) => {
